@@ -4,6 +4,7 @@
 -/
 import KcacheModel.Pipe
 import KcacheModel.Proofs.Pipe
+import KcacheModel.Sys
 namespace KC.C10
 open KC
 
@@ -60,6 +61,11 @@ example : ∃ s, (Pipe.init 2 : Pipe Nat).run
     ∧ (s.node 1).q = [1, 2] ∧ (s.node 2).out = [1, 2, 3] ∧ (s.node 1).dropped = true :=
   ⟨_, rfl, by decide, by decide, by decide⟩
 
+/-- the capacity the code uses (`EventBufsiz`, regenerated from subscription.go on every run) is a real
+buffer: with capacity 0 the non-blocking hand-over of subscription.go would drop every event -/
+theorem code_capacity_positive : 0 < evCap := by decide
+
+
 end KC.C10
 
 #print axioms KC.C10.forward_always_enabled
@@ -67,3 +73,4 @@ end KC.C10
 #print axioms KC.C10.stalled_gets_subsequence
 #print axioms KC.C10.stalled_keeps_first_cap
 #print axioms KC.C10.root_subsequence
+#print axioms KC.C10.code_capacity_positive
